@@ -14,7 +14,7 @@ RULE = ('virtual clock; every real main_loop iteration is watched by: retransmis
         'retries (IKE_SA_INIT, CREATE_CHILD_SA, IKE rekey); (3) a partition injected after EVERY micro-step of scripted histories of every '
         'exchange kind (half of the runs with background noise: every later iteration is woken by a datagram for an unknown SPI or an unhandled kernel message), then both sides must have emptied their SAD by T + dpd + 20 s + 3 ticks; (4) idle pairs run to 2x lifetime with dpd in '
         '{5, 60} and lifetime in {20, 100}: rekey starts within [lifetime, lifetime+5 s+slack]; (5) a peer that answers every rekey with TEMPORARY_FAILURE '
-        '(responses built by the harness with the real keys): DELETE(IKE) within 2 ticks of scheduled rekey time + 30 s; (6) two IKE_SAs with the same peer (simultaneous initiation) rekey one after the other with their first transmissions lost. distinct = run descriptors.')
+        '(responses built by the harness with the real keys): DELETE(IKE) within 2 ticks of scheduled rekey time + 30 s; (6) two IKE_SAs with the same peer (simultaneous initiation) rekey one after the other with their first transmissions lost; (7) one-way partitions: everything one side sends is lost while the peer\'s own request, its retransmissions and late copies of old responses keep arriving; the unanswerable request obeys the same retransmission rules and the IKE_SA with its kernel SAs is gone within the budget. distinct = run descriptors.')
 ASSUMPTIONS = ['virtual time only; a tick is one loop iteration on each endpoint after advancing the clock',
                'the scheduled deadline is read from the IKE_SA between iterations; emission-time rules need only the wire']
 SHARDS = {'quick': 8, 'thorough': 16}
@@ -104,6 +104,50 @@ def run_lost(ck, mons, seed, x, kind, lost, tname, conf=None, retry=None):
         if sc.ep(x).kernel.sad and kind not in ('initial', 'auth'):
             ck.violation(f'kernel-sas-left-after-retransmission-timeout:{kind}', {'sad': sorted(map(repr, sc.ep(x).kernel.sad))}, sim.case)
     return sc
+
+
+def run_oneway(ck, mons, seed, x, kind, ykind, dt, dups):
+    """(7) one-way partition: everything x sends is lost, everything the peer sends arrives. x's request can never be answered while authentic
+    datagrams of the peer (its own request and its retransmissions, optionally late copies of its earlier responses) keep arriving at x."""
+    sc = walk.Scenario(seed, mons, dict(dpd=600, lifetime=3600), handshake=True)
+    sim = sc.sim
+    sim.tick_dt = dt
+    y = 'B' if x == 'A' else 'A'
+    sim.case.update({'family': 'one-way-partition', 'x': x, 'kind': kind, 'peer_request': ykind, 'tick': dt, 'late_copies': dups})
+    if not sc.ok:
+        return
+    me = str(sc.ep(x).addrs[0])
+    old_responses = [w[3] for w in sim.wire if w[2] == me and w[3][19] & 0x20 and w[3][18] != 34]
+    start_request(sc, x, kind)
+    T = sim.clock.t
+    budget = monitors.retransmission_budget()
+    peer_started = False
+    n_arrived = 0
+    while sim.clock.t < T + budget + 3 * dt + 2:
+        for d in list(sim.net):
+            if d not in sim.net:
+                continue
+            i = sim.net.index(d)
+            if d.src == me:
+                sc.drop(i)
+            else:
+                sc.deliver(i)
+                n_arrived += 1
+        if not peer_started and sim.clock.t >= T + 2 * dt:
+            peer_started = True
+            sc.trigger(y, ykind)
+        if dups and old_responses and peer_started:
+            sim.inject(sc.ep(x), str(sc.ep(y).addrs[0]), me, old_responses[-1])
+        sc.tick(dt)
+    ck.count('oneway.runs')
+    ck.count('oneway.peer_datagrams_arrived', n_arrived)
+    ck.nontrivial(('oneway', x, kind, ykind, dt, dups))
+    left = [s_.state.name for s_ in sc.ep(x).ctl.ike_sas]
+    if left or sc.ep(x).kernel.sad:
+        ck.violation(f'unanswerable-request-not-given-up-within-the-retransmission-budget-while-the-peer-keeps-talking:{kind}',
+                     {'states': left, 'sad': len(sc.ep(x).kernel.sad), 'seconds': sim.clock.t - T, 'budget': budget, 'trace': sim.trace[-6:]}, sim.case)
+    else:
+        ck.count('oneway.gone_in_time')
 
 
 def history_steps(sc, script):
@@ -397,6 +441,14 @@ def run(ck):
             n += 1
             if ck.mine(n):
                 run_same_peer(ck, mk(), base + n, order, dt)
+    # (7) one-way partitions
+    for x in 'AB':
+        for kind in ('acquire', 'expire_soft', 'rekey_ike', 'dpd', 'expire_hard'):
+            for ykind in ('dpd', 'acquire', 'rekey_ike'):
+                for dt, dups in ((1.0, False), (0.5, True)) if not thorough else ((1.0, False), (0.5, True), (0.25, False), (2.0, True)):
+                    n += 1
+                    if ck.mine(n):
+                        run_oneway(ck, mk(), base + n, x, kind, ykind, dt, dups)
     # (5) TEMPORARY_FAILURE for ever
     for dt in (0.5, 1.0, 2.0) if not thorough else (0.25, 0.5, 1.0, 2.0, 3.0):
         n += 1
@@ -412,6 +464,8 @@ def verdict(ck):
     ck.floor('give-ups after the budget', c['tm.gave_up'], 50)
     ck.floor('request-outstanding states seen giving up', len(ck.sets['tm.gave_up_states']), 8)
     ck.floor('retry runs', sum(v for k, v in c.items() if k.startswith('retry.runs.')), 40)
+    ck.floor('one-way partition runs', c['oneway.runs'], 40)
+    ck.floor('one-way partition runs that ended within the budget', c['oneway.gone_in_time'], 40)
     ck.floor('partition points', c['partition.runs'], 100)
     ck.floor('SADs emptied in time after a partition', c['partition.sad_emptied_in_time'], 100)
     ck.floor('DPD probes started', c['tm.dpd_started'], 20)
